@@ -15,7 +15,10 @@ theorem rules_match_source : Rule.all.map Rule.name = PyGql.Generated.Validation
 
 /-- errors reported by rule `r` run alone (chain = TypeInfoVisitor + r) -/
 def alone (s : SchemaD) (fx : Fixes) (r : Rule) (d : Doc) : St := visitDocument ⟨s, fx, [r]⟩ d {}
-/-- "the rule reports nothing" -/
+/-- "the rule reports nothing": NO RECORDED ERROR of the rule run alone (chain = TypeInfoVisitor + the rule). The exception
+    flag `RS.crash` is NOT part of it: a run that raised before recording an error is `Silent`. The statements that include
+    the flag are about `verdict` / `verdictM` (`Props/C06_chain.lean: verdict_iff_alone`, `verdictM_iff_alone`,
+    `verdictM_iff_spec`); for the lone run of the memoised overlap rule `overlap_memo_run_no_crash`. -/
 def Silent (s : SchemaD) (fx : Fixes) (r : Rule) (d : Doc) : Prop := E (alone s fx r d) = 0
 
 private theorem enterRules_single (c : Cfg) (n : Node) (ti : TI) (r : Rule) (rs : RS) :
